@@ -217,9 +217,15 @@ impl VarResolve for AssignToFunction {
 
             // store this in the name context too to make it easier for instruction generator
             // TODO add unit test
-            // TODO what if the name already exists?
-            ctx.names
-                .insert_compact(converted_name.as_bare_name().clone(), variable_info);
+            // (the result variable may exist already, e.g. after `F% = 1` a second `F = 2`)
+            if ctx
+                .names
+                .get_compact_var_recursively(converted_name.as_bare_name(), function_qualifier)
+                .is_none()
+            {
+                ctx.names
+                    .insert_compact(converted_name.as_bare_name().clone(), variable_info);
+            }
 
             let expr = Expression::Variable(converted_name, expr_type);
 
